@@ -133,6 +133,27 @@ func (g *c21Gen) next() string {
 		if r.Chance(1, 2) {
 			opts = genOpts(r).line()
 		}
+		// one put in four carries a client-supplied checksum; more than half of those are rejected
+		// (mismatching checksum, or a body that breaks off): answered with an error, they must leave
+		// no outbox entry and never reach the inner storage
+		if inm == 0 && im == "~" && r.Chance(1, 4) {
+			kind := verifx.Pick(r, []string{"etag", "etag", "crc32", "crc32c", "crc64", "sha1", "sha256"})
+			body := g.body()
+			switch r.Intn(5) {
+			case 0, 1:
+				if bs.exists {
+					bs.dirty = true
+				}
+				return fmt.Sprintf("op put %s %s %s %s inm=0 im=~ cs=ok:%s", b, k, verifx.Hex(body), opts, kind)
+			case 2:
+				if len(body) < 2 {
+					body = []byte("broken off")
+				}
+				return fmt.Sprintf("op put %s %s %s %s inm=0 im=~ cs=ioerr", b, k, verifx.Hex(body), opts)
+			default:
+				return fmt.Sprintf("op put %s %s %s %s inm=0 im=~ cs=bad:%s", b, k, verifx.Hex(body), opts, kind)
+			}
+		}
 		if bs.exists {
 			bs.dirty = true
 		}
@@ -209,6 +230,12 @@ func c21Directed() [][]string {
 			"op mkb b0",
 			"op put b0 k0 " + h("body") + " ct=" + h("text/plain") + " md=" + h("!cc") + ":" + h("no-cache") + "," + h("!cd") + ":" + h("attachment") + "," + h("!ce") + ":" + h("gzip") + "," + h("!cl") + ":" + h("de") + "," + h("!ex") + ":" + h("Wed, 21 Oct 2015 07:28:00 GMT") + "," + h("!wr") + ":" + h("/other") + "," + h("a") + ":" + h("1") + " tags=" + h("t") + ":" + h("v") + " cls=" + h("STANDARD_IA") + " inm=0 im=~",
 			"op head b0 k0 vid=~", "op gtag b0 k0 vid=~",
+		},
+		{ // rejected puts (mismatching checksum, broken body) on the queue path and on the write-through path
+			"op mkb b0", put("b0", "k0", "good"), put("b0", "k0", "corrupted") + " cs=bad:etag", put("b0", "k1", "never") + " cs=bad:sha256",
+			put("b0", "k1", "half a bo") + " cs=ioerr", put("b0", "dir/k2", "checked") + " cs=ok:crc32", "flush 2", put("b0", "k0", "again bad") + " cs=bad:crc64",
+			"op get b0 k0 vid=~", "op get b0 k1 vid=~", "op ls b0", "op ver b0 E", put("b0", "k0", "sync bad") + " cs=bad:crc32c",
+			put("b0", "k0", "sync half") + " cs=ioerr", put("b0", "k0", "sync ok") + " cs=ok:sha1", "op get b0 k0 vid=~", "op lsv b0",
 		},
 		{ // enabled bucket: everything synchronous, version ids returned
 			"op mkb b0", "op ver b0 E", put("b0", "k0", "v0"), put("b0", "k0", "v1"), "op del b0 k0 vid=~ im=~", "op lsv b0", "op get b0 k0 vid=v0", "op del b0 k0 vid=v2 im=~", "op get b0 k0 vid=~",
